@@ -20,7 +20,7 @@
   Ghost fields (never read by the model's control flow) record histories for the theorems.
 -/
 import NngModel.Proto.LifeBase
-import NngModel.Generated.Consts
+import NngModel.Generated.C14
 namespace Nng.LifeModel
 open Nng.Life Nng.Generated
 
